@@ -14,8 +14,28 @@ def ex_peerstate(repo):
     return common.status_code(repo) + common.peer_state_types(repo)
 
 
+def ex_timeouts(repo):
+    from extract import Source
+    pe = Source(repo, PEERS); pm = Source(repo, PROTOMOD)
+    return common.status_code(repo) + common.peer_state_types(repo) + pm.consts(r'^pub const MESSAGE_TIMEOUT: u64 = [^;]*;') + [
+        pe.method(r'^impl Peers \{', 'get_peers_which_have_timeout', wrap='impl Peers')]
+
+
 def obligations():
+    import C16
+    c16 = {o.ob_id: o for o in C16.obligations()}
+    rel = []
+    for k in ['O16.3-release-headers', 'O16.3-release-txs', 'O16.4-release-rejected-headers', 'O16.4-release-rejected-txs']:
+        o = c16[k]; o.ob_id = 'O11.4' + k[5:]; o.desc = '[the in-flight fetches of a peer stay eligible for other peers] ' + o.desc; rel.append(o)
+    return _own() + rel
+
+
+def _own():
     obs = [
+        KModelOb('O11.3-timeouts', 'ups:timeout', 'timeouts', 'Peers::get_peers_which_have_timeout (real text, over the real PeerState text): a peer is reported iff a request to it (state machine, blocks proof, blocks, '
+                 'transactions proof) is unanswered for longer than MESSAGE_TIMEOUT or its last state was not refreshed within MESSAGE_TIMEOUT - each such peer exactly once, nobody else',
+                 ex_timeouts, '2 peers in arbitrary states with arbitrary in-flight requests; clock readings below 2^62 ms, arbitrary now', cuts=['DashMap -> array', 'in-flight request structs -> (when_sent)'],
+                 timeout=900, mem_gb=16, min_covers=1, weight=3, rustflags='--cfg ups_timeout'),
         KModelOb('O11.1-step', 'peerstate', 'step_any',
                  'PeerState inductive step: one arbitrary event from an ARBITRARY state (any of the 7 variants, arbitrary contents) '
                  'stays inside the documented transition table; prove state / last state / request / when_sent change only by '
